@@ -567,6 +567,20 @@ func (c *Context) Sqrt(d, x *Decimal) (Condition, error) {
 	nc.Precision = c.Precision
 	nc.Rounding = RoundHalfEven
 	res := nc.round(d, d)
+	if !res.Inexact() && d.Form == Finite {
+		// The guard digits of approx can all be zeros (or nines) although the
+		// root is not exact, in which case the rounding above did not notice
+		// that digits were lost. The root is exact iff d*d == x.
+		// x may alias d, so compare against f, restored to the value of x.
+		f.Exponent += int32(e)
+		var sq Decimal
+		if _, err := BaseContext.Mul(&sq, d, d); err == nil && sq.Cmp(&f) != 0 {
+			res |= Inexact | Rounded
+			if res.Subnormal() {
+				res |= Underflow
+			}
+		}
+	}
 	return nc.goError(res)
 }
 
